@@ -1,12 +1,14 @@
 import Flodym.Driver.NpCmds
 import Flodym.Driver.DsmCmds
 import Flodym.Driver.SysCmds
+import Flodym.Driver.BuildCmds
 open Flodym.Driver
 
 structure St where
   store : Store := {}
   dsm : DsmState := {}
   sys : SysState := {}
+  build : BuildState := {}
 
 def stepA (s : Store) (toks : List String) : Store × String :=
     match arrayStep s toks with
@@ -33,6 +35,9 @@ def step (s : St) (line : String) : St × String :=
     | none =>
     match sysStep s.store s.sys toks with
     | some (y, o) => ({ s with sys := y }, o)
+    | none =>
+    match buildStep s.store s.build toks with
+    | some (y, o) => ({ s with build := y }, o)
     | none => let (st, o) := stepA s.store toks; ({ s with store := st }, o)
 
 partial def loop (h : IO.FS.Stream) (out : IO.FS.Stream) (s : St) : IO Unit := do
